@@ -26,17 +26,17 @@ func (f Fault) String() string {
 
 // Kinds of byte-level faults.
 const (
-	Trunc     = "truncate"   // keep the first Off bytes (short read / torn tail)
-	BitFlip   = "bitflip"    // flip bit Bit of byte Off
-	ByteSet   = "byteset"    // overwrite byte Off with Val
-	ZeroBlock = "zeroblock"  // Len bytes at Off read back as zeros (lost block write)
-	DupBlock  = "dupblock"   // block [Off,Off+Len) written twice (inserted again after itself)
-	SwapBlock = "swapblocks" // blocks at Off and Off2 of length Len exchanged (reordered writes)
-	DropBlock = "dropblock"  // block [Off,Off+Len) missing, rest shifted down
+	Trunc     = "truncate"     // keep the first Off bytes (short read / torn tail)
+	BitFlip   = "bitflip"      // flip bit Bit of byte Off
+	ByteSet   = "byteset"      // overwrite byte Off with Val
+	ZeroBlock = "zeroblock"    // Len bytes at Off read back as zeros (lost block write)
+	DupBlock  = "dupblock"     // block [Off,Off+Len) written twice (inserted again after itself)
+	SwapBlock = "swapblocks"   // blocks at Off and Off2 of length Len exchanged (reordered writes)
+	DropBlock = "dropblock"    // block [Off,Off+Len) missing, rest shifted down
 	TornNew   = "torn-new-old" // first Off bytes of the new version, then the old version's tail
 	TornOld   = "torn-old-new" // first Off bytes of the old version, then the new version's tail
-	Stale     = "stale"      // the update was lost entirely: old version is read
-	Garbage   = "garbage"    // Len bytes at Off replaced by PRNG bytes seeded by Val
+	Stale     = "stale"        // the update was lost entirely: old version is read
+	Garbage   = "garbage"      // Len bytes at Off replaced by PRNG bytes seeded by Val
 )
 
 // Apply returns the bytes a reader sees after fault f hits `cur`; `old` is the previous
